@@ -1,3 +1,4 @@
+import Fpdec.Kernels.Cmp
 import Fpdec.Lemmas.RatioL
 import Fpdec.Props.C09_Sites
 
@@ -44,5 +45,13 @@ theorem hash_of_equal_values (prof : Profile) (x y : Dec) (hx : Dom x) (hy : Dom
 /-! ### non-vacuity -/
 example : asIntegerRatio Profile.dev ⟨-50, 2⟩ = .ok (-1, 2) ∧ asIntegerRatio Profile.dev ⟨-5, 1⟩ = .ok (-1, 2) := by decide
 example : Spec.cmp 34 1 3400 3 = .eq := by decide
+
+/-! ### translated kernels
+The Lean definitions `Gen.K.*` are regenerated from the Rust source on every run by `tools/fpkernels.py` (expression-level
+translation).  These theorems tie them to the hand-written model the property theorems above are about: a change of the Rust
+kernel that changes its translation breaks them. -/
+/-- `impl PartialEq<Decimal> for Decimal` / `impl PartialOrd<Decimal> for Decimal`, as translated on this run -/
+theorem kernel_decimal_eq (prof : Profile) (x y : Dec) (hp : x.nfrac < 256) (hq : y.nfrac < 256) :
+    Gen.K.decimal_eq prof x y = .ok (decimalEq x y) := Kernels.decimal_eq_eq prof x y hp hq
 
 end Fpdec.Props.C09
